@@ -161,6 +161,18 @@ pub fn junk_menu() -> Vec<Vec<u8>> {
             z.extend_from_slice(&[0x01, 0x04, 0x00, 0xfb, 0xff]);
             z
         },
+        // 21, 22: complete, CRC-valid PNG chunks in front: a stray IDAT chunk with a 3-byte / 1-byte payload (an IDAT
+        // run that is too short to be a stream) followed by a different chunk
+        {
+            let mut z = png_chunk(b"IDAT", &[0x78, 0x9c, 0x03]);
+            z.extend_from_slice(&png_chunk(b"tEXt", b"k\0v"));
+            z
+        },
+        {
+            let mut z = png_chunk(b"IDAT", &[0x78]);
+            z.extend_from_slice(b"--");
+            z
+        },
     ]
 }
 
@@ -378,6 +390,25 @@ pub fn png_odd_menu() -> Vec<Wrapper> {
             f
         }),
     });
+    // a zlib trailer that is not the Adler-32 of the plaintext, chunk CRCs valid (one chunk / two chunks / split inside
+    // the trailer)
+    for (d, sp) in [("one chunk", vec![]), ("two chunks", vec![300usize]), ("split inside the trailer", vec![usize::MAX - 2])] {
+        let sp2 = sp.clone();
+        v.push(Wrapper {
+            kind: WKind::Png,
+            descr: format!("png zlib trailer is not the Adler-32 of the data, {}", d),
+            supported: false,
+            build: Arc::new(move |s| {
+                let mut z = zlib_wrap([0x78, 0x9c], &s.stream, &s.plain);
+                let n = z.len();
+                for b in &mut z[n - 4..] {
+                    *b ^= 0x5a;
+                }
+                let sp3: Vec<usize> = sp2.iter().map(|&x| if x > usize::MAX / 2 { n - (usize::MAX - x) } else { x }).collect();
+                png_wrap(&z, &sp3, true)
+            }),
+        });
+    }
     // k bytes between the end of the stream and the Adler-32
     for k in [1usize, 3, 4] {
         v.push(Wrapper {
